@@ -42,6 +42,10 @@ type st struct {
 	cur      map[string]string // kv of the running autoassign
 	before   int               // affine blocks of the host before the op
 	beforeIn map[int]int       // ... per pool
+	// blocks whose RECORDED affinity is the host, per pool, before the op
+	beforeBlk map[int]int
+	curOf     map[int]map[string]string
+	befOf     map[int][3]any
 }
 
 func (s *st) fail(sig, desc string, info map[string]any) {
@@ -72,6 +76,17 @@ func (s *st) affineBlocks(host int) int {
 		}
 	}
 	return n
+}
+
+// ownedBlocksPerPool counts BLOCKS whose recorded affinity is the host (not affinity objects).
+func (s *st) ownedBlocksPerPool(host int) map[int]int {
+	m := map[int]int{}
+	for b, blk := range s.r.Env.World().Blocks {
+		if blk.Aff == host {
+			m[s.r.Env.PoolOf[b]]++
+		}
+	}
+	return m
 }
 
 func (s *st) affineBlocksPerPool(host int) map[int]int {
@@ -131,6 +146,11 @@ func (s *st) onEnd(r *ipamkv.Runner, tid int, ctx *ipamkv.ThreadCtx, res *ipamkv
 	if ctx.Op != "autoassign" {
 		return
 	}
+	if kvt, ok := s.curOf[tid]; ok {
+		s.cur = kvt
+		bo := s.befOf[tid]
+		s.before, s.beforeIn, s.beforeBlk = bo[0].(int), bo[1].(map[int]int), bo[2].(map[int]int)
+	}
 	e := r.Env
 	kv := s.cur
 	host := ctx.Host
@@ -186,18 +206,39 @@ func (s *st) onEnd(r *ipamkv.Runner, tid int, ctx *ipamkv.ThreadCtx, res *ipamkv
 		s.fail("block-cap-exceeded", "host holds more affine blocks than the cap after an AutoAssign", map[string]any{"host": host, "before": s.before, "after": after, "cap": cap})
 	}
 	// what the code does enforce: the cap over the blocks inside the pools usable for THIS request
-	bIn, aIn := 0, 0
+	// (counted both as affinity objects and as blocks whose recorded affinity is the host)
+	bIn, aIn, bBlk, aBlk := 0, 0, 0, 0
 	afterIn := s.affineBlocksPerPool(host)
+	afterBlk := s.ownedBlocksPerPool(host)
 	for pi := range allowed {
 		bIn += s.beforeIn[pi]
 		aIn += afterIn[pi]
+		bBlk += s.beforeBlk[pi]
+		aBlk += afterBlk[pi]
 	}
-	limIn := cap
+	limIn, limBlk := cap, cap
 	if bIn > limIn {
 		limIn = bIn
 	}
-	if ok && aIn > limIn {
-		s.fail("block-cap-exceeded-in-pools", "host holds more affine blocks inside the pools usable for the request than the cap", map[string]any{"host": host, "before": bIn, "after": aIn, "cap": cap})
+	if bBlk > limBlk {
+		limBlk = bBlk
+	}
+	if ok && res.Err == nil && (aIn > limIn || aBlk > limBlk) {
+		// distinct shape: the host has an affinity in state pendingDeletion for a block (of a usable
+		// pool) that still records the host as its affinity - an affinity the count must include
+		pd := false
+		for k, stt := range w.Affs {
+			if k[0] == host && stt == "pendingDeletion" && allowed[e.PoolOf[k[1]]] {
+				if blk, okb := w.Blocks[k[1]]; okb && blk.Aff == host {
+					pd = true
+				}
+			}
+		}
+		sig := "block-cap-exceeded-in-pools"
+		if pd {
+			sig = "block-cap-exceeded-uncounted-pendingdeletion"
+		}
+		s.fail(sig, "host holds more affine blocks inside the pools usable for the request than the cap after a successful AutoAssign", map[string]any{"host": host, "before_objects": bIn, "after_objects": aIn, "before_blocks": bBlk, "after_blocks": aBlk, "cap": cap})
 	}
 }
 
@@ -279,6 +320,12 @@ func (s *st) exec(line string) {
 		s.cur = kv
 		s.before = s.affineBlocks(atoi(kv["host"]))
 		s.beforeIn = s.affineBlocksPerPool(atoi(kv["host"]))
+		s.beforeBlk = s.ownedBlocksPerPool(atoi(kv["host"]))
+		if s.curOf == nil {
+			s.curOf, s.befOf = map[int]map[string]string{}, map[int][3]any{}
+		}
+		s.curOf[atoi(w[1])] = kv
+		s.befOf[atoi(w[1])] = [3]any{s.before, s.beforeIn, s.beforeBlk}
 		s.r.Exec(line)
 	default:
 		s.r.Exec(line)
@@ -361,16 +408,74 @@ func gen(h *rt.H) []string {
 	return ops
 }
 
+// capRace: strict affinity, cap 1, one pool.  Host 0 owns one (emptied) block; a release of the
+// host's affinities that must-be-empty reads the empty block, then the host's own AutoAssign fills
+// the block, then the release marks the affinity pendingDeletion and loses its compare-and-delete:
+// the affinity stays pendingDeletion, the block stays the host's and full.  A later AutoAssign of
+// the host is at its cap and must fail (ErrBlockLimit) rather than claim a second block.
+func capRace(h *rt.H, s *st) {
+	bs := rt.Pick(h, []int{31, 30})
+	size := 1 << uint(32-bs)
+	s.exec(fmt.Sprintf("new hosts=2 handles=3 pools=10.0.0.0/29/%d pattrs=E:WT:n0:s0:A zones=0,0 cool=0 strict=1 maxblk=1 resv=-", bs))
+	step := func(tid int) bool {
+		if s.r.Sc.Peek(tid) == nil {
+			return false
+		}
+		s.exec(fmt.Sprintf("step %d none", tid))
+		return true
+	}
+	s.exec("begin 1 autoassign host=0 h=1 n=1 use=W ns=0 req=- maxblk=0")
+	s.exec("quiesce")
+	s.exec("begin 2 relbyhandle host=0 h=1")
+	s.exec("quiesce")
+	s.exec("begin 3 relhostaff host=0 empty=1")
+	s.exec(fmt.Sprintf("begin 4 autoassign host=0 h=2 n=%d use=W ns=0 req=- maxblk=0", size))
+	if h.Chance(0.75) {
+		// the releaser reads affinity and (empty) block, then the host fills the block
+		for i := 0; i < 12; i++ {
+			c := s.r.Sc.Peek(3)
+			if c == nil || (c.Verb != ipamkv.VGet && c.Verb != ipamkv.VList) {
+				break
+			}
+			step(3)
+		}
+		for step(4) {
+		}
+	} else {
+		for i := 0; i < 200; i++ {
+			rd := s.r.Ready()
+			if len(rd) == 0 {
+				break
+			}
+			step(rd[h.Intn(len(rd))])
+		}
+	}
+	s.exec("quiesce")
+	s.exec(fmt.Sprintf("begin 5 autoassign host=0 h=3 n=%d use=W ns=0 req=- maxblk=0", 1+h.Intn(2)))
+	s.exec("quiesce")
+	if h.Chance(0.5) {
+		s.exec("begin 6 autoassign host=1 h=3 n=1 use=W ns=0 req=- maxblk=0")
+		s.exec("quiesce")
+	}
+}
+
 func main() {
 	h := rt.New()
 	defer h.Close()
 	h.Rule = "case = 1-3 pools (enabled/disabled, allowed uses W/T/L, node selector none/zone=1/zone=2, namespace selector none/team=1/team=2, automatic/manual, 2-4 blocks of 2-4 addresses), 2-3 hosts with zone labels, 0-3 reservations (/32,/31,/30), strict affinity on/off, global+per-request block caps; " +
-		"4..13 ops over {allowed-pools query, AutoAssign(use, namespace, requested pools, cap), ReleaseByHandle}; non-trivial = a case where some request failed and some succeeded, or a reservation was skipped"
+		"one case in six is the cap race (strict, cap 1: release-if-empty of the host's block races the host's own AutoAssign that fills it, then the host asks again at its cap); otherwise 4..13 ops over {allowed-pools query, AutoAssign(use, namespace, requested pools, cap), ReleaseByHandle}; non-trivial = a case where some request failed and some succeeded, or a reservation was skipped"
 	run := func(ops []string, tag string) {
 		h.Case(tag)
 		s := &st{h: h, r: ipamkv.NewRunner(h)}
 		s.r.OnEnd = s.onEnd
+		if ops == nil {
+			capRace(h, s)
+			ops = s.r.Cmds
+		}
 		for _, op := range ops {
+			if len(s.r.Cmds) > 0 && tag == "race" {
+				break
+			}
 			s.exec(op)
 		}
 		if s.r.Env != nil {
@@ -393,6 +498,10 @@ func main() {
 		return
 	}
 	for i := 0; i < h.N; i++ {
-		run(gen(h), "gen")
+		if h.Intn(6) == 0 {
+			run(nil, "race")
+		} else {
+			run(gen(h), "gen")
+		}
 	}
 }
